@@ -171,13 +171,15 @@ pub fn gen_case(ch: &mut Chooser) -> Case {
     let mut illegal = None;
     if ch.chance(1, 12) {
         let flat: Vec<(Vec<usize>, Kind)> = root.flat().into_iter().map(|(p, o)| (p, kind_of(&o.class))).collect();
-        let k = ch.below(3);
+        let k = ch.below(4);
         let (want_parent, child, what): (Kind, Obj, &'static str) = match k {
             0 => (Kind::Widget, Obj::new("QSpacerItem"), "spacer-under-widget"),
             1 => (Kind::Layout, Obj::new("QAction"), "action-under-layout"),
-            _ => (Kind::Action, Obj::new("QLabel"), "child-under-action"),
+            2 => (Kind::Action, Obj::new("QLabel"), "child-under-action"),
+            // a separator entry has no element that could hold a child
+            _ => (Kind::Action, Obj::new(*ch.pick(&["QAction", "QMenu", "QLabel"])).with_id("lostChild"), "child-under-separator"),
         };
-        let cands: Vec<&Vec<usize>> = flat.iter().filter(|(p, k)| *k == want_parent && !is_separator(root.at(p))).map(|(p, _)| p).collect();
+        let cands: Vec<&Vec<usize>> = flat.iter().filter(|(p, k)| *k == want_parent && (is_separator(root.at(p)) == (what == "child-under-separator"))).map(|(p, _)| p).collect();
         if !cands.is_empty() {
             let p = (*ch.pick(&cands)).clone();
             root.at_mut(&p).children.push(child);
@@ -207,6 +209,13 @@ fn run_case(ch: &mut Chooser) -> Outcome {
         Ok(f) => f,
         Err(e) => return Outcome::fail("c11-undecodable", e.clone(), detail(&e)),
     };
+    if case.illegal == Some("child-under-separator") && f.root.find("lostChild").is_none() {
+        let why = "the document is accepted but the object `lostChild`, declared as a child of a separator action, appears nowhere in the .ui".to_owned();
+        return Outcome::fail("c11-object-missing", why.clone(), detail(&why));
+    }
+    if case.illegal == Some("child-under-separator") {
+        return Outcome::pass(None);
+    }
     let n = case.root.count();
     let depth = case.root.depth();
     let mixed_parent = case.root.flat().iter().any(|(_, o)| {
